@@ -1,5 +1,6 @@
 import PttVerif.Common
 import PttVerif.Gen.RecFile
+import PttVerif.Model.C06
 /-
 C05 — model of the fixed-size record-file operations:
   cmsys/record.go : GetNumRecords, GetRecords, SubstituteRecord, AppendRecord, DeleteRecord
@@ -29,6 +30,9 @@ def writeAt (f : File) (off : Nat) (bs : List Nat) : File :=
 
 /-- bytes `[i*sz, (i+1)*sz)` of the file (0-based record index), as far as they exist. -/
 def record (f : File) (sz i : Nat) : List Nat := (f.drop (i * sz)).take sz
+
+/-- the complete records of a file (a torn tail is not a record). -/
+def recs (f : File) (sz : Nat) : List (List Nat) := (List.range (f.length / sz)).map (record f sz)
 
 /-- the file system's view of one path. `bytes = []` when absent. -/
 structure FS where
@@ -280,6 +284,104 @@ def coldRead (b : Bottom) : Bottom :=
 /-- ptt.LoadBottomArticles: `GetRecords(bottom, 1, NBottom, asc)` unless the cached count is 0. -/
 def loadBottom (b : Bottom) : Out :=
   if b.nBottom = 0 then .recs .ok [] else getRecords b.file 1 (b.nBottom : Int) false
+
+/-! ### the request layer: an article NAME (or id) is looked up and the hit is confirmed before the record
+is modified (ptt.Recommend, EditPost, CrossPost through cmsys.GetRecord) or delete-marked (bbs.DeleteArticles).
+
+The search itself (cmsys.FindRecordStartIdx: bisection by create-time, then a linear pass that falls back
+to the NEAREST entry when the name is absent) is property C06; its model is reused here as it is and the
+theorems of C05 do not depend on what it returns: the confirmation of the hit is what protects the neighbour. -/
+
+def recName (r : List Nat) : List Nat := field r Gen.RecFile.offFilename Gen.RecFile.lenFilename
+
+/-- `Filename_t.Eq`: `Cstrcmp(f[2:], f2[2:]) == 0` (the type prefix is not compared). -/
+def fnEq (a b : List Nat) : Bool := cstrcmpEq (a.drop 2) (b.drop 2)
+
+/-- what the search family reads of each record. -/
+def entriesOf (f : File) : C06.Index := (recs f dirSz).map (fun r => C06.absEntry (recName r))
+
+inductive Look where
+  | hit (i : Nat) (r : List Nat)     -- 1-based index and the record image read
+  | miss                             -- any error return
+  | fault                            -- the search panicked / did not terminate
+  deriving Repr, DecidableEq
+
+/-- cmsys.GetRecord as ptt.Recommend / ptt.getFileHeader call it (`total` = the cached article count, which
+agrees with the file after a reload); `confirm` = the hit is compared with the requested name. -/
+def getRecordG (confirm : Bool) (s : FS) (name : List Nat) : Look :=
+  let cnt := if s.present then s.bytes.length / dirSz else 0          -- cache.GetBTotalWithRetry
+  if cnt = 0 then .miss                                               -- ErrInvalidParams / ErrInvalidFilename
+  else match C13.fnCreateTime name with
+    | none => .miss                                                   -- filename.CreateTime()
+    | some ct =>
+      match C06.findRecordStartIdx (entriesOf s.bytes) (cnt : Int) ct (some (cstr (name.drop 2))) true with
+      | .error (.fault _) => .fault
+      | .error _ => .miss
+      | .ok i =>
+        if 1 ≤ i ∧ i ≤ (cnt : Int) then                              -- Seek + BinaryRead of record i
+          let r := record s.bytes dirSz (i.toNat - 1)
+          if confirm then (if fnEq name (recName r) then .hit i.toNat r else .miss)   -- ErrRecordNotFound
+          else .hit i.toNat r
+        else .miss
+
+def getRecordReq (s : FS) (name : List Nat) : Look := getRecordG Gen.RecFile.getRecordConfirmsName s name
+
+/-- ptt.Recommend from the lookup on (permission checks passed; `mtime` = the article file's mtime after the
+comment line was appended, an input from the clock): the record found is rewritten by ModifyDirLite. -/
+def recommendReq (s : FS) (name : List Nat) (ctype : Nat) (mtime : Int) : FS × Out :=
+  match getRecordReq s name with
+  | .fault => (s, .panic)
+  | .miss => (s, .unit .err)
+  | .hit i r =>
+    let fm := r.getD Gen.RecFile.offFilemode 0
+    if (recName r).head? = some 76 ∨ (fm &&& Gen.RecFile.FILE_MARKED ≠ 0 ∧ fm &&& Gen.RecFile.FILE_SOLVED ≠ 0) then
+      (s, .unit .err)                                                 -- 'L' / marked+solved: ErrNotPermitted
+    else if C13.isDeleted (recName r) then
+      (s, .unit .err)   -- doAddRecommend opens the article file under the record's (marked) name: not on disk
+    else
+      let cur := toInt8 (r.getD Gen.RecFile.offRecommend 0)
+      let upd : Int := if ctype = 1 ∧ cur < maxRec then 1 else if ctype = 2 ∧ cur > -maxRec then -1 else 0
+      if mtime > 0 then modifyDirLite s (i : Int) ⟨recName r, mtime, none, none, none, upd, none, 0, 0⟩
+      else (s, .unit .ok)
+
+/-- how bbs.DeleteArticles confirms the record it is about to delete-mark (regenerated). -/
+inductive DelConfirm where
+  | articleID      -- `articleID == articleSummary.ArticleID`
+  | createTime     -- create-time of the record = create-time of the request
+  deriving DecidableEq, Repr
+
+def delConfirm : DelConfirm :=
+  if Gen.RecFile.deleteConfirmsCreateTimeOnly then .createTime else .articleID
+
+/-- bbs.DeleteArticles for one article id: ToFilename, FindArticleStartIdx (ascending), the one-record
+window at the index found, the confirmation, ptt.DeleteArticles → DeleteRecord(index-1).
+Answer: `.idx .ok n` with n = number of ids reported as deleted. -/
+def deleteReqG (c : DelConfirm) (s : FS) (aid : List Nat) : FS × Out :=
+  match C13.articleIDToRaw aid with
+  | .error _ => (s, .panic)
+  | .ok fname =>
+    match C13.fnCreateTime fname with
+    | none => (s, .idx .err 0)
+    | some ct =>
+      let cnt := if s.present then s.bytes.length / dirSz else 0
+      if cnt = 0 then (s, .idx .err 0)                                -- ErrNoRecord
+      else match C06.findRecordStartIdx (entriesOf s.bytes) (cnt : Int) ct (some (cstr (fname.drop 2))) false with
+        | .error (.fault _) => (s, .panic)
+        | .error _ => (s, .idx .err 0)
+        | .ok start =>
+          let st : Int := if start = 0 then (cnt : Int) else start    -- LoadGeneralArticles: 0 means newest
+          if 1 ≤ st ∧ st ≤ (cnt : Int) then
+            let r := record s.bytes dirSz (st.toNat - 1)
+            let same := match c with
+              | .articleID => decide (aid = C13.toArticleID (recName r))
+              | .createTime => decide (C13.fnCreateTime (recName r) = some ct)
+            if same then
+              let d := deleteRecord s dirSz (start - 1)               -- the index FindArticleStartIdx returned
+              (d.1, match d.2 with | .unit .ok => .idx .ok 1 | _ => .idx .err 0)
+            else (s, .idx .ok 0)
+          else (s, .idx .ok 0)
+
+def deleteReq (s : FS) (aid : List Nat) : FS × Out := deleteReqG delConfirm s aid
 
 /-! ### operations and histories -/
 
